@@ -2,6 +2,7 @@ use crate::fw::Prop;
 
 pub mod c06;
 pub mod c07;
+pub mod c09;
 pub mod c15;
 pub mod c37;
 pub mod c38;
@@ -10,6 +11,7 @@ pub fn all() -> Vec<Box<dyn Prop>> {
     vec![
         Box::new(c06::C06),
         Box::new(c07::C07),
+        Box::new(c09::C09),
         Box::new(c15::C15),
         Box::new(c37::C37),
         Box::new(c38::C38),
